@@ -35,6 +35,8 @@ MANIFEST = {
                  '+ exact rational oracle',
 }
 BUDGET = {'quick': 70, 'thorough': 1500}
+ESCALATE_BUDGET = 150
+SEARCH_BUDGET = 120
 MISMATCH_BUDGET = 0.0
 RULE = ('sequences of 1-4 blocks with, per channel, none / trapezoid / extended trapezoid (also chained over a block '
         'edge at a non-zero amplitude) / arbitrary raster gradient, optional event delays and block delays, raster 10 or '
@@ -404,7 +406,9 @@ def impl_taps(case, nt):
     dt = case['raster_us'] / 1e6
     taus = [fl(t) for ax in AX for t in case['hw'][ax]['tau']]
     zpt = max(taus) * 4 / 1000
-    p1, p2 = round(zpt / 4 / dt), round(zpt / 1 / dt)
+    import translate
+    pmin = translate.CONSTS.get('pns', {}).get('pad_min', [0, 0])
+    p1, p2 = max(round(zpt / 4 / dt), pmin[0]), max(round(zpt / 1 / dt), pmin[1])
     N = p1 + nt + p2 - 1
     taps = {}
     for ax in AX:
